@@ -44,6 +44,9 @@ type Trace struct {
 	NewErr       string
 	Deadlock     string
 	Leaked       []string
+	// Early: the cumulative bound of C04 was already exceeded at this receive; the run was cut
+	// short there (whatever the discipline does afterwards cannot hide it)
+	Early string
 }
 
 func (s Script) alwaysReady() bool {
@@ -142,6 +145,9 @@ func executeT[T any](t *testing.T, s Script, leakScan bool, budget time.Duration
 			}
 			return
 		}
+		// the accessor is an accessor: asking for the channel again (here for its capacity, then on
+		// every receive) must change nothing
+		_ = cap(dsc.Output())
 		if !s.PreStart {
 			go produce()
 		}
@@ -156,6 +162,14 @@ func executeT[T any](t *testing.T, s Script, leakScan bool, budget time.Duration
 			}
 			tr.Recv = append(tr.Recv, now())
 			tr.Vals = append(tr.Vals, val(v, len(tr.Vals)))
+			if r := tr.Recv[len(tr.Recv)-1]; uint64(len(tr.Recv)) > mulSat(s.Q, uint64(r/s.I)+1) {
+				tr.Early = fmt.Sprintf("cumulative bound: %d elements received by t=%dns, allowed %d (Q=%d I=%dns)", len(tr.Recv), r, mulSat(s.Q, uint64(r/s.I)+1), s.Q, s.I)
+				go func() { // let the producer and the discipline finish on their own
+					for range dsc.Output() {
+					}
+				}()
+				return
+			}
 		}
 		if !leakScan {
 			return
@@ -198,6 +212,9 @@ func addSat(a, b uint64) uint64 {
 func CheckC04(s Script, tr Trace) error {
 	if tr.NewErr != "" {
 		return nil
+	}
+	if tr.Early != "" {
+		return fmt.Errorf("%s", tr.Early)
 	}
 	q, iv := s.Q, s.I
 	for i, r := range tr.Recv {
